@@ -393,7 +393,11 @@ class NetworkServiceSliver(BaseSliver):
                 flag = iA.prop_diff(iB)
 
                 if iA.get_type() == InterfaceType.DedicatedPort:
-                    if iA.diff(iB):
+                    # the interface's own properties are already in flag; only
+                    # look at what happened to its sub-interfaces
+                    sub_diff = iA.diff(iB)
+                    if sub_diff and (sub_diff.added.interfaces or sub_diff.removed.interfaces or
+                                     sub_diff.modified.interfaces):
                         flag |= WhatsModifiedFlag.SUB_INTERFACES
 
                 if flag != WhatsModifiedFlag.NONE:
